@@ -106,13 +106,18 @@ func genConfig(seed int64, stream string, idx, hashes int, maxStake float64) *co
 	}
 	c.PolicyStr = geoStr(c.PolicyGeo)
 	// stakes: ratio max/min from 1:1 to 1:1000
-	c.Ratio = vrand.Pick(r, []float64{1, 1, 2, 5, 10, 100, 1000, 1000})
+	// stake ratio and geolocation mode are stratified over the config index (8 and 5 are coprime: every combination
+	// occurs once per 40 configs), the rotation depends on the seed; everything else is drawn from the PRNG
+	rot := vrand.New(seed, stream+"-rotation")
+	ratios := []float64{1, 1, 2, 5, 10, 100, 1000, 1000}
+	modes := []string{"all-match", "mixed", "mixed", "mixed", "none-match"}
+	c.Ratio = ratios[(idx+rot.Intn(len(ratios)))%len(ratios)]
+	geoMode := modes[(idx+rot.Intn(len(modes)))%len(modes)]
 	base := logU(r, 1e6, maxStake/c.Ratio)
-	geoMode := vrand.Pick(r, []string{"all-match", "mixed", "mixed", "mixed", "none-match"})
 	first := planstypes.GetGeolocationsFromUint(c.PolicyGeo)[0]
 	for i := 0; i < n; i++ {
 		f := logU(r, 1, math.Max(c.Ratio, 1.0000001))
-		if i == 0 {
+		if i == 0 || c.Ratio == 1 {
 			f = 1
 		}
 		if i == 1 {
